@@ -1,14 +1,13 @@
-\* exhaustive: every boundary list within {1,3,5}, <= 4 recorded values from ranks 0..6, every split over
-\* <= 3 collections by 1-2 readers of either temporality
+\* exhaustive: every boundary list within {1,3,5}, every multiset of <= 4 recorded values from ranks 0..6,
+\* every split over <= 3 collections, one reader of either temporality
 CONSTANTS MaxRank = 6
   BoundSets = {{}, {1}, {3}, {5}, {1,3}, {1,5}, {3,5}, {1,3,5}}
   Tables = {"D_small"}
-  MMChoices = {TRUE, FALSE}
-  Mode = "pipe" NSlots = 1 NKeys = 1 ReaderCfgs = {1, 2, 11, 12, 22}
+  MMChoices = {TRUE}
+  Mode = "pipe" NSlots = 1 NKeys = 1 ReaderCfgs = {1, 2}
   MaxAgg = 4 MaxOps = 3 Balanced = FALSE Dev = {} Hist = FALSE
 INIT Init
 NEXT Next
 VIEW View
 CONSTRAINT Bound
-INVARIANTS TypeOK BucketsPartition BucketRule EveryValueInOneBucket SumExact MinMaxExact PointIsSummary
-  MergeIsHomomorphism DiffIsInverse ReadersAgree DevsAreNarrow
+INVARIANTS TypeOK BucketsPartition EveryValueInOneBucket PointIsSummary ReadersAgree
